@@ -295,6 +295,9 @@ class Module(object):
             normalize_module(tree)
         self.tree = tree
         self.inlined = inline_module(self.tree, name)  # {class name or None: helper names analysed at their call sites}
+        if any(self.inlined.values()) if isinstance(self.inlined, dict) else self.inlined:
+            from .inline import post_inline_normalize
+            post_inline_normalize(self.tree)
         for parent in ast.walk(self.tree):
             for child in ast.iter_child_nodes(parent):
                 child._parent = parent
